@@ -30,6 +30,24 @@ type CandSpec struct {
 	Source    uint32 `json:"source"`
 	NextHop   uint32 `json:"next_hop"`
 	OwnAS     bool   `json:"own_as,omitempty"` // the local ASN appears in the AS_PATH (C05 tables)
+	// V6: peer address and next hop are IPv6 addresses made from Source / NextHop: 1 = the upper and the
+	// lower 64 bits order the addresses in opposite directions, 2 = equal upper halves
+	V6 uint8 `json:"v6,omitempty"`
+	// TwinOf (noise paths, 1-based): the same path as that candidate - same attributes, same tag -
+	// learned from another peer address
+	TwinOf int `json:"twin_of,omitempty"`
+}
+
+// addr builds the peer address / next hop of a candidate.
+func (c CandSpec) addr(v uint32) *bnet.IP {
+	switch c.V6 {
+	case 1:
+		k := uint64(v & 0xff)
+		return bnet.IPv6(0x20010db800000000+k, 100-k).Dedup()
+	case 2:
+		return bnet.IPv6(0x20010db800000000, uint64(v&0xff)).Dedup()
+	}
+	return bnet.IPv4(v).Dedup()
 }
 
 func (c CandSpec) String() string {
@@ -52,7 +70,24 @@ func (c CandSpec) decisionKey() string {
 	if cl < 0 {
 		cl = 0
 	}
-	return fmt.Sprintf("bgp/%d/%d/%d/%d/%v/%d/%d/%d/%d", c.LocalPref, c.ASLen, c.Origin, c.MED, c.EBGP, id, cl, c.Source, c.NextHop)
+	return fmt.Sprintf("bgp/%d/%d/%d/%d/%v/%d/%d/%s/%s", c.LocalPref, c.ASLen, c.Origin, c.MED, c.EBGP, id, cl, c.addr(c.Source), c.addr(c.NextHop))
+}
+
+// pathDecisionKey is decisionKey read from a path as it is stored (what the table really holds).
+func pathDecisionKey(p *route.Path) string {
+	if p.Type == route.StaticPathType {
+		return fmt.Sprintf("static/%d", p.StaticPath.NextHop.ToUint32())
+	}
+	a := p.BGPPath.BGPPathA
+	id := a.BGPIdentifier
+	if a.OriginatorID != 0 {
+		id = a.OriginatorID
+	}
+	cl := 0
+	if p.BGPPath.ClusterList != nil {
+		cl = len(*p.BGPPath.ClusterList)
+	}
+	return fmt.Sprintf("bgp/%d/%d/%d/%d/%v/%d/%d/%s/%s", a.LocalPref, p.BGPPath.ASPathLen, a.Origin, a.MED, a.EBGP, id, cl, a.Source, a.NextHop)
 }
 
 // build makes the bio-rd path; idx is carried in a community (not looked at by the decision process).
@@ -74,7 +109,7 @@ func (c CandSpec) build(idx int) *route.Path {
 	coms := types.Communities{uint32(0xfd000000 + idx)}
 	p := &route.Path{Type: route.BGPPathType, BGPPath: &route.BGPPath{
 		BGPPathA: &route.BGPPathA{
-			NextHop: bnet.IPv4(c.NextHop).Dedup(), Source: bnet.IPv4(c.Source).Dedup(), LocalPref: c.LocalPref, MED: c.MED,
+			NextHop: c.addr(c.NextHop), Source: c.addr(c.Source), LocalPref: c.LocalPref, MED: c.MED,
 			BGPIdentifier: c.BGPID, OriginatorID: c.OrigID, EBGP: c.EBGP, Origin: c.Origin,
 		},
 		ASPath: ap, ASPathLen: ap.Length(), Communities: &coms,
@@ -123,9 +158,16 @@ func genC02(seed uint64) *Plan {
 	pl.Sim = SimCfg{ShuffleMaps: r.Chance(0.5)}
 	n := 2 + r.Intn(4)
 	allowStatic := r.Chance(0.3)
+	v6 := uint8(0)
+	if r.Chance(0.3) {
+		v6 = uint8(1 + r.Intn(2))
+	}
 	seen := map[string]bool{}
 	for len(pl.Cands) < n {
 		c := genCand(r, allowStatic)
+		if !c.Static {
+			c.V6 = v6
+		}
 		// two candidates that are the same path (same source, same attributes) are one path
 		if seen[c.String()] {
 			continue
@@ -135,7 +177,15 @@ func genC02(seed uint64) *Plan {
 	}
 	// noise paths that are added and removed again in between
 	for i := r.Intn(3); i > 0; i-- {
-		pl.Noise = append(pl.Noise, genCand(r, false))
+		nc := genCand(r, false)
+		nc.V6 = v6
+		if k := r.Intn(len(pl.Cands)); r.Chance(0.4) && !pl.Cands[k].Static {
+			// the same path as candidate k, learned from another peer: removing it must not touch k
+			nc = pl.Cands[k]
+			nc.Source = pick(r, []uint32{0x0a000000, 0x0a000009}) // sorts after / before every candidate's address
+			nc.TwinOf = k + 1
+		}
+		pl.Noise = append(pl.Noise, nc)
 	}
 	pl.Steps = []Step{{Kind: "c02_run"}}
 	return pl
@@ -215,6 +265,12 @@ func (o *c02Oracle) run(w *World) {
 	}
 	// all (up to 120) arrival orders on fresh Loc-RIBs, with noise added and removed in between
 	perms := permutations(len(cands), 120, w.Env.Rng)
+	buildNoise := func(k int) *route.Path {
+		if t := noise[k].TwinOf; t > 0 {
+			return noise[k].build(t - 1)
+		}
+		return noise[k].build(500 + k)
+	}
 	var ref string
 	var refOrder []int
 	for pi, perm := range perms {
@@ -225,17 +281,16 @@ func (o *c02Oracle) run(w *World) {
 		for k, ci := range perm {
 			rib.AddPath(pfx, cands[ci].build(ci))
 			if pi > 0 && k < len(noise) {
-				np := noise[k].build(500 + k)
-				rib.AddPath(pfx, np)
-				rib.RemovePath(pfx, noise[k].build(500+k))
+				rib.AddPath(pfx, buildNoise(k))
+				rib.RemovePath(pfx, buildNoise(k))
 			}
 		}
 		if pi%2 == 1 {
 			for k := range noise {
-				rib.AddPath(pfx, noise[k].build(500+k))
+				rib.AddPath(pfx, buildNoise(k))
 			}
 			for k := range noise {
-				rib.RemovePath(pfx, noise[k].build(500+k))
+				rib.RemovePath(pfx, buildNoise(k))
 			}
 		}
 		r := rib.Get(pfx)
@@ -267,7 +322,14 @@ func (o *c02Oracle) run(w *World) {
 			ecmpK = append(ecmpK, dk(e))
 		}
 		sort.Strings(ecmpK)
-		got := fmt.Sprintf("best=%s ecmp=%v stored=%v", dk(best), ecmpK, all)
+		// what the table really holds, read from the stored paths (a path that was swapped for
+		// its twin from another peer carries the candidate's tag but not its peer address)
+		var storedK []string
+		for _, p := range ps {
+			storedK = append(storedK, pathDecisionKey(p))
+		}
+		sort.Strings(storedK)
+		got := fmt.Sprintf("best=%s/%s ecmp=%v stored=%v %v", dk(best), pathDecisionKey(ps[0]), ecmpK, all, storedK)
 		if pi == 0 {
 			ref, refOrder = got, perm
 			continue
